@@ -392,6 +392,36 @@ def on_decode(p, r, exc, acc):
     acc.sample(dict(filter="decode." + r["enc"], input=r["s"].concretize(p.witness())))
 
 
+def h_decode_bytes(n):
+    """decode.<enc> on bytes and on other objects must return str"""
+    def h(p):
+        bs = SymBytes([values.new_char("b%d" % i, values.Domain(list(range(0, 128)))).v for i in range(n)])
+        enc = ("ascii", "latin1")[p.choose(2, "enc")]
+        out = getattr(F.decode, enc)(bs)
+        other = getattr(F.decode, enc)(12345)
+        return dict(bs=bs, out=out, enc=enc, other=other)
+    return h
+
+
+def on_decode_bytes(p, r, exc, acc):
+    if exc is not None:
+        acc.candidate(kind="decode-raises", input=None, detail=repr(exc)[:200])
+        return
+    acc.tags["ran"] += 1
+    out = r["out"]
+    acc.vcs += 2
+    m = p.witness()
+    if not isinstance(out, (str, SymStr)) or len(values.lift(out).items) != len(r["bs"].items):
+        acc.candidate(kind="decode-bytes", input=dict(filter="decode." + r["enc"], bytes=repr(r["bs"].concretize(m))), detail="returned %r" % (conc(out, m),))
+    else:
+        st, mod = p.vc(z3.And([cv(a) == b for a, b in zip(values.lift(out).items, r["bs"].items)]) if r["bs"].items else z3.BoolVal(True))
+        if st == "fails":
+            acc.candidate(kind="decode-bytes", input=dict(filter="decode." + r["enc"], bytes=repr(r["bs"].concretize(mod))), detail="")
+    if r["other"] != "12345":
+        acc.candidate(kind="decode-object", input=dict(filter="decode." + r["enc"], object=12345), detail="returned %r" % (r["other"],))
+    acc.sample(dict(filter="decode." + r["enc"], bytes=repr(r["bs"].concretize(m))))
+
+
 CHARSETS = {"ascii": 128, "latin-1": 256}
 
 
@@ -487,7 +517,14 @@ def markup_ok(out, text):
     if re.search(r"&(?!(amp|lt|gt|quot|apos|#34|#39);)", out): return False
     return ref_unescape(out) == text
 bad = None
-if "filter" in CASE:
+if "bytes" in CASE or "object" in CASE:
+    enc = CASE["filter"].split(".")[1]
+    val = eval(CASE["bytes"]) if "bytes" in CASE else CASE["object"]
+    out = getattr(filters.decode, enc)(val)
+    want = val.decode(enc) if isinstance(val, bytes) else str(val)
+    print("decode.%%s(%%r) -> %%r, expected %%r" %% (enc, val, out, want))
+    if out != want or not isinstance(out, str): bad = "decode.<enc> does not return the decoded str"
+elif "filter" in CASE:
     f, text = CASE["filter"], CASE["text"]
     out = Template("${x | %%s}" %% ("n," + f if f != "h" else "n,h")).render_unicode(x=text)
     print("filter", f, "input", repr(text), "->", repr(out))
@@ -557,6 +594,7 @@ def run(check, tier):
             jobs.append(("C10-u-%d" % n, h_url(n), on_url, "u filter, %d symbolic code points" % n, dict(chars=n)))
         jobs.append(("C10-trim-%d" % n, h_trim(n + 1), on_trim, "trim, %d symbolic code points" % (n + 1), dict(chars=n + 1)))
     jobs.append(("C10-decode", h_decode(2), on_decode, "decode.<enc> on str, 2 symbolic code points", dict(chars=2)))
+    jobs.append(("C10-decode-bytes", h_decode_bytes(2), on_decode_bytes, "decode.<enc> on 2 symbolic ASCII bytes and on an int", dict(bytes=2)))
     jobs.append(("C10-entity-1", h_entity(1), on_entity, "entity filter + html_entities_unescape, 1 symbolic code point", dict(chars=1)))
     for ctx in CONTEXTS:
         if ctx:
